@@ -553,6 +553,11 @@ def main(pid):
     rep = Report(pid, level, tr, technique="generated C (real capi.gen_code + specialize_source text) parsed with pycparser and translated to z3 terms; per generated function the disequality with the documented-layout term / the real Python reader's term / the other target's term is checked unsat for all indices and header words")
     rep.crash_reproduces = True
     cat = tg.catalogue(tr, seed())
+    # zero-length static axes next to dynamic ones (only for the C API checks: such arrays hold no element, but their
+    # length accessor and header layout are defined)
+    I64 = ("scalar", "Int64")
+    for extra in (("array", I64, (0, None), None), ("array", I64, (None, 0), (1, 0)), ("array", ("scalar", "Int16"), (None, 0, None), (2, 0, 1)), ("struct", "SZ0", (("z", ("array", I64, (0, None), None)), ("k", ("scalar", "Int8"))))):
+        cat.append((tg.describe(extra), extra))
     jobs = [(pid, label, ast, tr, tr == "thorough") for label, ast in cat]
     if pid == "C15":
         # every type a second time, as fresh classes, with the generator's other entry points called first
